@@ -989,7 +989,7 @@ class TorControlProtocol(LineOnlyReceiver):
         # print "startCommand",self.code,line
         self.code = int(line[:3])
         # print "startCommand:",self.code
-        if self.command and self.command[2] is not None:
+        if self._line_callback() is not None:
             self.command[2](line[4:])
         else:
             self.response = line[4:] + '\n'
@@ -1011,9 +1011,20 @@ class TorControlProtocol(LineOnlyReceiver):
                                                                   self.code))
         return line[3] == '+'
 
+    def _line_callback(self):
+        """
+        the per-line callback of the in-flight command -- unless the
+        lines currently arriving belong to an asynchronous event
+        """
+        if self.code is not None and self.code >= 600:
+            return None
+        if self.command and self.command[2] is not None:
+            return self.command[2]
+        return None
+
     def _accumulate_multi_response(self, line):
         "for FSM"
-        if self.command and self.command[2] is not None:
+        if self._line_callback() is not None:
             self.command[2](line)
 
         else:
@@ -1022,7 +1033,7 @@ class TorControlProtocol(LineOnlyReceiver):
 
     def _accumulate_response(self, line):
         "for FSM"
-        if self.command and self.command[2] is not None:
+        if self._line_callback() is not None:
             self.command[2](line[4:])
 
         else:
